@@ -13,6 +13,9 @@ result: `U <n> <out rec>…` and, when `dm` names a key, ` D <n> <rec>… R <n> 
 makes of the output, and what obiuniq makes of those).  `<out rec>` = `<seq hex>:<count>:<attrs>:<merged>` with
 the attributes sorted, only the requested `merged_` maps, entries sorted; records sorted.
 The model ignores mode, workers and batch size (the theorems say the result does not depend on them).
+
+`dispatch c=<chunks> b=<batch size> <rec> …` → `disp <code>:<n> …`: the chunk files of the on-disk mode (hash code,
+number of records), by increasing code.
 -/
 namespace ObiVerif.Driver.C06
 open ObiVerif.Uniq ObiVerif.Driver
@@ -100,6 +103,18 @@ def run (line : String) : String :=
         let d := demerge k u
         let r := uniqCRC chunks o d
         pure (joinSp [s1, showRecs "D" stats d, showRecs "R" stats r])
+    r.getD "bad-op"
+  | "dispatch" :: c :: b :: recs =>
+    -- the chunk files `ISequenceChunkOnDisk` finds: one per hash code, with the records of that code
+    let r : Option String := do
+      let chunks ← (← field "c=" c).toNat?
+      let _ ← (← field "b=" b).toNat?
+      let input ← recs.mapM parseRec
+      if chunks = 0 then none
+      let gs := group (hashC (hashCode chunks)) input
+      let cs := gs.filterMap fun g => g.head?.map fun x => (hashCode chunks x.seq, g.length)
+      let cs := cs.mergeSort (fun a b => decide (a.1 ≤ b.1))
+      pure (joinSp ("disp" :: cs.map fun e => s!"{e.1}:{e.2}"))
     r.getD "bad-op"
   | _ => "bad-op"
 
